@@ -101,11 +101,14 @@ fn book<F: Corpus>(
 /// Explore one corpus flow: all `exhaustive_scripts` under the exhaustive engine, then `fuzz_budget`
 /// random scripts with seeded schedules.
 pub fn explore<F: Corpus>(prop: &str, test: &str, seed: u64, thorough: bool, fuzz_budget: usize) -> Explored {
+    let t_build = std::time::Instant::now();
     let (sim, ports) = F::build();
     let mut part = Partial::default();
+    part.count_n(&format!("{}_ms_build", F::NAME), t_build.elapsed().as_millis() as u64);
     let mut failing = 0u64;
     let mut exhaustive_complete = true;
 
+    let t_ex = std::time::Instant::now();
     for script in F::exhaustive_scripts(thorough) {
         let agg: Mutex<(Partial, u64)> = Mutex::new((Partial::default(), 0));
         let res = run_exhaustive(&sim, async || {
@@ -128,6 +131,8 @@ pub fn explore<F: Corpus>(prop: &str, test: &str, seed: u64, thorough: bool, fuz
         }
     }
 
+    part.count_n(&format!("{}_ms_exhaustive", F::NAME), t_ex.elapsed().as_millis() as u64);
+    let t_fz = std::time::Instant::now();
     let base = Rng::new(seed).fork(hash_of(F::NAME));
     for i in 0..fuzz_budget {
         let mut rng = base.fork(i as u64);
@@ -145,6 +150,7 @@ pub fn explore<F: Corpus>(prop: &str, test: &str, seed: u64, thorough: bool, fuz
             (Ok(()), None) => part.harness_error(format!("{} fuzz script {:?}: no trace", F::NAME, script)),
         }
     }
+    part.count_n(&format!("{}_ms_fuzz", F::NAME), t_fz.elapsed().as_millis() as u64);
     Explored {
         part,
         failing_executions: failing,
